@@ -43,7 +43,7 @@ def generate(seed, tier="quick"):
     driver = "plugin" if sub(seed, "driver").random() < 0.2 else "inline"
     if sub(seed, "norepr").random() < 0.4 and "norepr" not in prof.special:
         prof.special.append("norepr")  # needs the inserted HasRepr import
-    prog = W.gen_program(rng, prof, {"prev": ["none", "same", "other", "edit", "edit", "slack", "wrong", "subset", "superset"], "n_files": (1, 3), "n_sites": (1, 4),
+    prog = W.gen_program(rng, prof, {"prev": ["none", "same", "other", "other", "wrong", "edit", "edit", "slack", "wrong", "subset", "superset"], "n_files": (1, 3), "n_sites": (1, 4),
                                      "n_tests": (1, 3), "styles": ["assert", "rec"], "hand": 0.6, "layout": False, "idle": 0.15})
     lr = sub(seed, "layout")
     n = 0
@@ -52,7 +52,7 @@ def generate(seed, tier="quick"):
         for t in f["tests"]:
             for e in t["events"]:
                 if e.get("t") == "cmp":
-                    if lr.random() < 0.35:
+                    if lr.random() < 0.5:
                         e["uni"] = lr.choice(UNI)
                     if lr.random() < 0.3:
                         e["trail"] = lr.choice(["ünï comment", "keep in sync with the table", "日本 🐍"])
